@@ -161,7 +161,8 @@ def run_case(case):
                 collide = tuple(sorted(set(json.loads(canon)) & set(udrun.BASE)))
             except ValueError:
                 collide = ()
-        recs.append(udrun.observe(pel, focus, r['plugins'], beh, 'C04', expect_canon=canon, collide=collide))
+        recs.append(udrun.observe(pel, focus, r['plugins'], beh, 'C04', expect_canon=canon, collide=collide,
+                                  via_cli=len(recs) % 3 == 1))        # every third section through the real command line
         recs[-1]['route'] = r
     return recs
 
